@@ -33,6 +33,12 @@
 //! injected cleartext x {cleartext RTP, cleartext RTCP} x {close(), drop}; see the module
 //! documentation for the oracle.  A failing signature is re-run alone three times and reported
 //! only if it shows every time (otherwise listed as flaky).
+//!
+//! Third part (thread interleavings, `vh::csched` + hook H6): 2-3 real OS threads call into one
+//! SRTP-mandatory transport at once; a controlled scheduler runs exactly one of them at a time and
+//! every order in which they can pass the lock / try_lock / unlock operations of the mutexes in
+//! transports/rtp.rs is executed (depth-first, by re-execution, all schedules for two threads and
+//! up to a preemption bound for three). The oracle above is applied to everything captured.
 use bytes::Bytes;
 use rayon::prelude::*;
 use rustrtc::peer_connection::RtpObserver;
@@ -1215,10 +1221,483 @@ fn pc_level(rep: &mut vh::Report, tier: vh::Tier) -> usize {
     confirmed
 }
 
+// ------------------------------------------------------------------------------------------
+// Third part: thread interleavings inside the transport (controlled scheduler, hook H6)
+//
+// The history part applies one operation at a time. Here 2-3 real OS threads call into the same
+// RtpTransport concurrently, and `vh::csched` enumerates every order in which they can pass the
+// transport's lock operations (every lock / try_lock / unlock of the mutexes in transports/rtp.rs is
+// a scheduling point; a thread can be preempted while it HOLDS a lock), up to a preemption bound.
+// Oracle = the same as above, applied to everything captured during the execution.
+
+#[derive(Clone, Copy, Debug, PartialEq, Eq)]
+enum COp {
+    Install(u32),
+    SendRtp(u8),
+    SendRaw(u8),
+    SendRtcp(u8),
+    SyncBye,
+    RecvProtRtp(u8),
+    RecvProtRtcp(u8),
+    RecvClearRtp(u8),
+    RecvClearRtcp(u8),
+    TkSendRtp(u8),
+    TkSyncBye,
+}
+
+struct CScenario {
+    name: &'static str,
+    /// key generation installed on A before the threads start (0 = none)
+    pre_keys: u32,
+    bridge_keyed: bool,
+    threads: Vec<Vec<COp>>,
+}
+
+fn c_scenarios() -> Vec<CScenario> {
+    use COp::*;
+    vec![
+        CScenario { name: "send_rtp|bye", pre_keys: 1, bridge_keyed: false, threads: vec![vec![SendRtp(0)], vec![SyncBye]] },
+        CScenario { name: "send_rtcp|bye", pre_keys: 1, bridge_keyed: false, threads: vec![vec![SendRtcp(0)], vec![SyncBye]] },
+        CScenario { name: "send_raw|bye", pre_keys: 1, bridge_keyed: false, threads: vec![vec![SendRaw(0)], vec![SyncBye]] },
+        CScenario { name: "recv_rtp|bye", pre_keys: 1, bridge_keyed: false, threads: vec![vec![RecvProtRtp(0)], vec![SyncBye]] },
+        CScenario { name: "recv_rtcp|bye", pre_keys: 1, bridge_keyed: false, threads: vec![vec![RecvProtRtcp(0)], vec![SyncBye]] },
+        CScenario { name: "install|send_rtp", pre_keys: 0, bridge_keyed: false, threads: vec![vec![Install(1)], vec![SendRtp(0)]] },
+        CScenario { name: "install|bye", pre_keys: 0, bridge_keyed: false, threads: vec![vec![Install(1)], vec![SyncBye]] },
+        CScenario { name: "reinstall|send_rtp", pre_keys: 1, bridge_keyed: false, threads: vec![vec![Install(2)], vec![SendRtp(0)]] },
+        CScenario { name: "reinstall|send_rtcp+bye", pre_keys: 1, bridge_keyed: false, threads: vec![vec![Install(2)], vec![SendRtcp(0), SyncBye]] },
+        CScenario { name: "install|recv_clear", pre_keys: 0, bridge_keyed: false, threads: vec![vec![Install(1)], vec![RecvClearRtp(0), RecvClearRtcp(1)]] },
+        CScenario { name: "install|recv_prot", pre_keys: 0, bridge_keyed: false, threads: vec![vec![Install(1)], vec![RecvProtRtp(0)]] },
+        CScenario { name: "send_rtp+bye|send_rtcp+bye", pre_keys: 1, bridge_keyed: false, threads: vec![vec![SendRtp(0), SyncBye], vec![SendRtcp(1), SyncBye]] },
+        CScenario { name: "send_rtp|send_rtp|bye", pre_keys: 1, bridge_keyed: false, threads: vec![vec![SendRtp(0)], vec![SendRtp(1)], vec![SyncBye]] },
+        CScenario { name: "install|send_rtp|bye", pre_keys: 0, bridge_keyed: false, threads: vec![vec![Install(1)], vec![SendRtp(0)], vec![SyncBye]] },
+        CScenario { name: "send_rtcp|recv_rtp|bye", pre_keys: 1, bridge_keyed: false, threads: vec![vec![SendRtcp(0)], vec![RecvProtRtp(1)], vec![SyncBye]] },
+        CScenario { name: "install|recv_clear|send_rtcp", pre_keys: 0, bridge_keyed: false, threads: vec![vec![Install(1)], vec![RecvClearRtp(0)], vec![SendRtcp(1)]] },
+        CScenario { name: "bridge:relay|target-bye", pre_keys: 1, bridge_keyed: true, threads: vec![vec![RecvProtRtp(0)], vec![TkSyncBye]] },
+        CScenario { name: "bridge:relay|target-send|target-bye", pre_keys: 1, bridge_keyed: true, threads: vec![vec![RecvProtRtp(0)], vec![TkSendRtp(1)], vec![TkSyncBye]] },
+    ]
+}
+
+#[derive(Default, Clone, Debug)]
+struct CTally {
+    schedules: u64,
+    decisions: u64,
+    max_points: usize,
+    max_preemptions: usize,
+    datagrams_authenticated: u64,
+    byes_authenticated: u64,
+    sends_refused: u64,
+    delivered_authentic: u64,
+    clear_inbound_dropped: u64,
+    outcomes: HashSet<u64>,
+}
+
+struct CResult {
+    findings: Vec<Finding>,
+    outcome: u64,
+}
+
+/// One controlled execution of a scenario under `prefix`; returns the execution and its verdicts.
+fn c_run(profile: SrtpProfile, sc: &CScenario, prefix: &[usize], t: &mut CTally) -> (vh::csched::Execution, CResult) {
+    let mut sys = Sys::build(profile, true);
+    if sc.pre_keys >= 1 {
+        let s = SrtpSession::new(profile, keying(profile, TAG_A_TX, 1), keying(profile, TAG_A_RX, 1)).unwrap_or_else(|e| vh::machinery_failure(&format!("SrtpSession::new: {e:?}")));
+        sys.a.tr.start_srtp(s);
+    }
+    if sc.bridge_keyed {
+        let params = RtpRewriteBridgeParams { fixed_out_ssrc: Some(SSRC_BRIDGE), initial_sequence_number: Some(3000), initial_timestamp_offset: Some(0), ..Default::default() };
+        sys.a.tr.bridge_rewrite_to(sys.tk.tr.clone(), params);
+    }
+    // inbound datagrams are prepared beforehand (the peer protects with generation-1 receive keys)
+    let mut peer = new_ref(profile, TAG_A_RX, 1);
+    let mut secrets: Vec<Vec<u8>> = vec![b"PeerConnection closed".to_vec()];
+    let mut authentic_rtp_injected = 0u64;
+    let mut authentic_rtcp_injected = 0u64;
+    let mut clear_injected = 0u64;
+    let mut installs: Vec<u32> = if sc.pre_keys >= 1 { vec![1] } else { vec![] };
+    let mut bodies: Vec<Box<dyn FnOnce() + Send + 'static>> = vec![];
+    let refused = Arc::new(AtomicU64::new(0));
+    for (ti, ops) in sc.threads.iter().enumerate() {
+        let mut calls: Vec<Box<dyn FnOnce() + Send + 'static>> = vec![];
+        for (oi, op) in ops.iter().enumerate() {
+            let step = ti * 4 + oi;
+            let a = sys.a.tr.clone();
+            let conn = sys.a.conn.clone();
+            let tk = sys.tk.tr.clone();
+            let peer_addr = sys.peer;
+            let refused = refused.clone();
+            match *op {
+                COp::Install(g) => {
+                    installs.push(g);
+                    calls.push(Box::new(move || {
+                        let s = SrtpSession::new(profile, keying(profile, TAG_A_TX, g), keying(profile, TAG_A_RX, g)).unwrap_or_else(|e| vh::machinery_failure(&format!("SrtpSession::new: {e:?}")));
+                        a.start_srtp(s);
+                    }));
+                }
+                COp::SendRtp(k) | COp::TkSendRtp(k) => {
+                    let secret = secret_payload(step, 0);
+                    secrets.push(secret.clone());
+                    let on_tk = matches!(op, COp::TkSendRtp(_));
+                    calls.push(Box::new(move || {
+                        let p = RtpPacket::new(RtpHeader::new(PT, 1000 + step as u16, 160 * step as u32, SSRC_OUT + 0x100 * k as u32), secret);
+                        let tr = if on_tk { tk } else { a };
+                        if poll_once(tr.send_rtp(p)).is_err() {
+                            refused.fetch_add(1, Ordering::Relaxed);
+                        }
+                    }));
+                }
+                COp::SendRaw(k) => {
+                    let secret = secret_payload(step, 1);
+                    secrets.push(secret.clone());
+                    calls.push(Box::new(move || {
+                        let raw = plain_rtp_bytes(SSRC_OUT + 0x100 * k as u32, 1000 + step as u16, 160 * step as u32, &secret);
+                        if poll_once(a.send(&raw)).is_err() {
+                            refused.fetch_add(1, Ordering::Relaxed);
+                        }
+                    }));
+                }
+                COp::SendRtcp(_) => {
+                    let mut body = Vec::new();
+                    body.extend_from_slice(&SSRC_IN.to_be_bytes());
+                    body.push(7);
+                    body.extend_from_slice(&[0x01, 0x02, 0x03]);
+                    body.extend_from_slice(&(0xC140_0000u32 | step as u32).to_be_bytes());
+                    body.extend_from_slice(&0x0a0b_0c0du32.to_be_bytes());
+                    secrets.push(body);
+                    calls.push(Box::new(move || {
+                        let rr = RtcpPacket::ReceiverReport(ReceiverReport {
+                            sender_ssrc: SSRC_OUT,
+                            report_blocks: vec![ReportBlock { ssrc: SSRC_IN, fraction_lost: 7, packets_lost: 0x010203, highest_sequence: 0xC140_0000 | step as u32, jitter: 0x0a0b_0c0d, last_sender_report: 0x1122_3344, delay_since_last_sender_report: 0x5566_7788 }],
+                        });
+                        if poll_once(a.send_rtcp(&[rr])).is_err() {
+                            refused.fetch_add(1, Ordering::Relaxed);
+                        }
+                    }));
+                }
+                COp::SyncBye | COp::TkSyncBye => {
+                    let on_tk = *op == COp::TkSyncBye;
+                    calls.push(Box::new(move || {
+                        let bye = RtcpPacket::Goodbye(Goodbye { sources: vec![SSRC_OUT], reason: Some("PeerConnection closed".to_string()) });
+                        let tr = if on_tk { tk } else { a };
+                        tr.send_rtcp_sync(&[bye]);
+                    }));
+                }
+                COp::RecvProtRtp(_) | COp::RecvClearRtp(_) => {
+                    let secret = secret_payload(step, 3);
+                    secrets.push(secret.clone());
+                    let raw = plain_rtp_bytes(SSRC_IN, 2000 + step as u16, 160 * step as u32, &secret);
+                    let bytes = if matches!(op, COp::RecvProtRtp(_)) {
+                        authentic_rtp_injected += 1;
+                        peer.encrypt_rtp(&raw).unwrap_or_else(|e| vh::machinery_failure(&format!("reference encrypt_rtp: {e}"))).to_vec()
+                    } else {
+                        clear_injected += 1;
+                        raw
+                    };
+                    calls.push(Box::new(move || {
+                        let mut buf = Vec::new();
+                        poll_once(conn.receive(Bytes::from(bytes), peer_addr, &mut buf));
+                    }));
+                }
+                COp::RecvProtRtcp(_) | COp::RecvClearRtcp(_) => {
+                    let raw = plain_rtcp_in(step);
+                    secrets.push(raw[8..28].to_vec());
+                    let bytes = if matches!(op, COp::RecvProtRtcp(_)) {
+                        authentic_rtcp_injected += 1;
+                        peer.encrypt_rtcp(&raw).unwrap_or_else(|e| vh::machinery_failure(&format!("reference encrypt_rtcp: {e}"))).to_vec()
+                    } else {
+                        clear_injected += 1;
+                        raw
+                    };
+                    calls.push(Box::new(move || {
+                        let mut buf = Vec::new();
+                        poll_once(conn.receive(Bytes::from(bytes), peer_addr, &mut buf));
+                    }));
+                }
+            }
+        }
+        bodies.push(Box::new(move || {
+            for c in calls {
+                c();
+            }
+        }));
+    }
+    let x = vh::csched::run_schedule(bodies, prefix);
+    let mut findings = vec![];
+    let sched = x.schedule().join(" ");
+    if x.deadlock {
+        findings.push(Finding { signature: format!("concurrent;scenario={};deadlock", sc.name), detail: format!("no thread can run and not all have finished; schedule: {sched}") });
+        return (x, CResult { findings, outcome: 0 });
+    }
+    for p in &x.panics {
+        findings.push(Finding { signature: format!("concurrent;scenario={};panic", sc.name), detail: format!("{p}; schedule: {sched}") });
+    }
+    // ---- everything that left on a wire
+    let mut refs_a: Vec<RefContext> = installs.iter().map(|g| new_ref(profile, TAG_A_TX, *g)).collect();
+    let mut ref_tk = new_ref(profile, TAG_TK_TX, 0);
+    let mut code: u64 = 0;
+    let mut dgrams: Vec<(Sock, Vec<u8>)> = vec![];
+    while let Ok((b, _, _)) = sys.a.rx.try_recv() {
+        dgrams.push((Sock::A, b));
+    }
+    while let Ok((b, _, _)) = sys.tk.rx.try_recv() {
+        dgrams.push((Sock::TK, b));
+    }
+    while let Ok((b, _, _)) = sys.tu.rx.try_recv() {
+        dgrams.push((Sock::TU, b));
+    }
+    let mut bridged = 0u64;
+    for (sock, bytes) in &dgrams {
+        let sn = sock_name(*sock);
+        let clear = secrets.iter().any(|s| contains(bytes, s));
+        let rtcp_len_fits = bytes.len() >= 8 && (u16::from_be_bytes([bytes[2], bytes[3]]) as usize + 1) * 4 <= bytes.len();
+        let looks_rtcp = bytes.len() >= 2 && (192..=223).contains(&bytes[1]) && rtcp_len_fits;
+        let mut ok = false;
+        let ctxs: Vec<&mut RefContext> = match sock {
+            Sock::A => refs_a.iter_mut().collect(),
+            Sock::TK => vec![&mut ref_tk],
+            Sock::TU => vec![],
+        };
+        for ctx in ctxs {
+            ok = if looks_rtcp { ref_auth_rtcp(profile, ctx, bytes) || ref_auth_rtp(ctx, bytes) } else { ref_auth_rtp(ctx, bytes) || ref_auth_rtcp(profile, ctx, bytes) };
+            if ok {
+                break;
+            }
+        }
+        let kind = if looks_rtcp { "rtcp" } else { "rtp" };
+        if !ok || clear {
+            let what = if installs.is_empty() && *sock == Sock::A { "before-keys" } else if !ok { "unauthenticated" } else { "cleartext-body" };
+            findings.push(Finding {
+                signature: format!("concurrent;scenario={};emit;{what};sock={sn};kind={kind};cleartext={}", sc.name, if clear { "yes" } else { "no" }),
+                detail: format!("a {kind} datagram captured on the socket of {sn} does not authenticate under any key generation installed on that transport (or carries a plaintext body: {clear}); datagram {}; schedule: {sched}", vh::hex(&bytes[..bytes.len().min(48)])),
+            });
+            continue;
+        }
+        t.datagrams_authenticated += 1;
+        if looks_rtcp && bytes[1] == 203 {
+            t.byes_authenticated += 1;
+        }
+        if *sock != Sock::A {
+            bridged += 1;
+        }
+        code = code.wrapping_mul(31).wrapping_add(match (sock, looks_rtcp) {
+            (Sock::A, false) => 1,
+            (Sock::A, true) => 2,
+            (_, false) => 3,
+            (_, true) => 4,
+        });
+    }
+    // ---- inbound sinks
+    let mut listener = 0u64;
+    while sys.lis_rx.try_recv().is_ok() {
+        listener += 1;
+    }
+    let mut provisional = 0u64;
+    while sys.prov_rx.try_recv().is_ok() {
+        provisional += 1;
+    }
+    let mut rtcp_l = 0u64;
+    while sys.rtcp_rx.try_recv().is_ok() {
+        rtcp_l += 1;
+    }
+    let ingress = sys.a.obs.ingress.load(Ordering::Relaxed);
+    let bridged_rtp = dgrams.iter().filter(|(s, b)| *s != Sock::A && !(b.len() >= 2 && (192..=223).contains(&b[1]))).count() as u64;
+    let tk_sends = sc.threads.iter().flatten().filter(|o| matches!(o, COp::TkSendRtp(_))).count() as u64;
+    let sinks: [(&str, u64, u64); 5] = [
+        ("ssrc-listener", listener, authentic_rtp_injected),
+        ("provisional-listener", provisional, authentic_rtp_injected),
+        ("observer-ingress", ingress, authentic_rtp_injected),
+        ("bridged-peer", bridged_rtp.saturating_sub(tk_sends), authentic_rtp_injected),
+        ("rtcp-listener", rtcp_l, authentic_rtcp_injected),
+    ];
+    for (name, n, allowed) in sinks {
+        if n > allowed {
+            findings.push(Finding {
+                signature: format!("concurrent;scenario={};deliver;{name}", sc.name),
+                detail: format!("{n} item(s) reached {name} although only {allowed} datagram(s) protected under A's receive keys were injected ({clear_injected} cleartext ones were); schedule: {sched}"),
+            });
+        }
+    }
+    let _ = bridged;
+    t.delivered_authentic += listener + provisional + rtcp_l;
+    if clear_injected > 0 && listener + provisional + rtcp_l + ingress == 0 {
+        t.clear_inbound_dropped += clear_injected;
+    }
+    t.sends_refused += refused.load(Ordering::Relaxed);
+    code = code.wrapping_mul(131).wrapping_add(listener * 7 + provisional * 5 + rtcp_l * 3 + refused.load(Ordering::Relaxed));
+    (x, CResult { findings, outcome: code })
+}
+
+struct CExplored {
+    scenario: &'static str,
+    profile: SrtpProfile,
+    stats: vh::csched::ExploreStats,
+    tally: CTally,
+    /// signature -> (detail, schedule)
+    viol: BTreeMap<String, (String, Vec<usize>)>,
+}
+
+fn c_explore(profile: SrtpProfile, sc: &CScenario, bound: Option<usize>) -> CExplored {
+    let mut tally = CTally::default();
+    let mut viol: BTreeMap<String, (String, Vec<usize>)> = BTreeMap::new();
+    let mut last: Option<CResult> = None;
+    let stats = {
+        let tally_cell = std::cell::RefCell::new(&mut tally);
+        let last_cell = std::cell::RefCell::new(&mut last);
+        let viol_cell = std::cell::RefCell::new(&mut viol);
+        vh::csched::explore(
+            bound,
+            |prefix| {
+                let (x, r) = c_run(profile, sc, prefix, &mut tally_cell.borrow_mut());
+                **last_cell.borrow_mut() = Some(r);
+                x
+            },
+            |x| {
+                let r = last_cell.borrow_mut().take().expect("result");
+                tally_cell.borrow_mut().outcomes.insert(r.outcome);
+                let deadlock = x.deadlock;
+                for f in r.findings {
+                    viol_cell.borrow_mut().entry(f.signature).or_insert((f.detail, x.choices()));
+                }
+                // a deadlocked execution leaves its threads blocked: stop exploring this scenario
+                !deadlock && viol_cell.borrow().len() < 8
+            },
+        )
+    };
+    tally.schedules = stats.schedules;
+    tally.decisions = stats.decisions;
+    tally.max_points = stats.max_points;
+    tally.max_preemptions = stats.max_preemptions_used;
+    CExplored { scenario: sc.name, profile, stats, tally, viol }
+}
+
+fn c_replay(r: &Value) -> ! {
+    let name = r["concurrent"].as_str().unwrap_or("");
+    let profile = profile_from_name(r["profile"].as_str().unwrap_or("")).unwrap_or_else(|| vh::machinery_failure("bad profile"));
+    let list = c_scenarios();
+    let sc = list.iter().find(|s| s.name == name).unwrap_or_else(|| vh::machinery_failure("unknown concurrent scenario"));
+    let schedule: Vec<usize> = r["schedule"].as_array().map(|a| a.iter().map(|v| v.as_u64().unwrap_or(0) as usize).collect()).unwrap_or_default();
+    let mut bad = false;
+    let mut first: Option<Vec<String>> = None;
+    for round in 0..2 {
+        let mut t = CTally::default();
+        let (x, res) = c_run(profile, sc, &schedule, &mut t);
+        println!("replay {round}: {}", x.schedule().join(" "));
+        for f in &res.findings {
+            println!("  {} :: {}", f.signature, f.detail);
+        }
+        bad |= !res.findings.is_empty();
+        let sigs: Vec<String> = res.findings.iter().map(|f| f.signature.clone()).collect();
+        match &first {
+            None => first = Some(sigs),
+            Some(f) if *f != sigs => vh::machinery_failure("the same schedule gave different verdicts on replay"),
+            _ => {}
+        }
+        if x.deadlock {
+            break;
+        }
+    }
+    std::process::exit(if bad { 1 } else { 0 });
+}
+
+/// Runs the concurrent part; returns the number of violation signatures.
+fn concurrent_level(rep: &mut vh::Report, tier: vh::Tier, profiles: &[SrtpProfile]) -> usize {
+    // self-check of the scheduler on a known race: two threads doing an unprotected read-modify-write
+    // around one H6 mutex each must be able to lose an update in some schedule and not in the first
+    {
+        use rustrtc::verif::sync::Mutex as HMutex;
+        let mut lost = 0u64;
+        let mut kept = 0u64;
+        let st = vh::csched::explore(
+            None,
+            |prefix| {
+                let cell = Arc::new(HMutex::new(0u32));
+                let mk = |c: Arc<HMutex<u32>>| -> Box<dyn FnOnce() + Send + 'static> {
+                    Box::new(move || {
+                        let v = *c.lock();
+                        *c.lock() = v + 1;
+                    })
+                };
+                let keep = cell.clone();
+                let x = vh::csched::run_schedule(vec![mk(cell.clone()), mk(cell)], prefix);
+                if *keep.lock() == 2 { kept += 1 } else { lost += 1 }
+                x
+            },
+            |_| true,
+        );
+        if lost == 0 || kept == 0 || st.schedules < 6 {
+            vh::machinery_failure(&format!("scheduler self-check failed: schedules={} lost-update={lost} kept={kept}", st.schedules));
+        }
+        rep.set("concurrent_scheduler_self_check", json!({"what": "two threads, unprotected read-modify-write through two critical sections each", "schedules": st.schedules, "schedules_losing_an_update": lost, "schedules_keeping_both": kept}));
+    }
+    let scs = c_scenarios();
+    let mut jobs: Vec<(usize, SrtpProfile, Option<usize>)> = vec![];
+    for (i, sc) in scs.iter().enumerate() {
+        for p in profiles {
+            let bound = match (sc.threads.len(), tier) {
+                (2, _) => None,
+                (_, vh::Tier::Quick) => Some(2),
+                (_, vh::Tier::Thorough) => Some(4),
+            };
+            jobs.push((i, *p, bound));
+        }
+    }
+    let results: Vec<CExplored> = jobs.par_iter().map(|(i, p, b)| c_explore(*p, &scs[*i], *b)).collect();
+    let mut total = CTally::default();
+    let mut per = vec![];
+    let mut nviol = 0usize;
+    for r in &results {
+        total.schedules += r.tally.schedules;
+        total.decisions += r.tally.decisions;
+        total.max_points = total.max_points.max(r.tally.max_points);
+        total.max_preemptions = total.max_preemptions.max(r.tally.max_preemptions);
+        total.datagrams_authenticated += r.tally.datagrams_authenticated;
+        total.byes_authenticated += r.tally.byes_authenticated;
+        total.sends_refused += r.tally.sends_refused;
+        total.delivered_authentic += r.tally.delivered_authentic;
+        total.clear_inbound_dropped += r.tally.clear_inbound_dropped;
+        per.push(json!({"scenario": r.scenario, "profile": profile_name(r.profile), "threads": scs.iter().find(|s| s.name == r.scenario).map(|s| s.threads.len()), "preemption_bound": r.stats.bound, "schedules": r.stats.schedules, "max_scheduling_points": r.stats.max_points, "max_preemptions_used": r.stats.max_preemptions_used, "distinct_outcomes": r.tally.outcomes.len()}));
+        for (sig, (detail, schedule)) in &r.viol {
+            nviol += 1;
+            rep.violation(vh::Violation {
+                signature: sig.clone(),
+                detail: format!("[{}] {detail}", profile_name(r.profile)),
+                replay: json!({"concurrent": r.scenario, "profile": profile_name(r.profile), "schedule": schedule}),
+            });
+        }
+    }
+    if nviol == 0 {
+        for (what, n) in [("authenticated datagrams", total.datagrams_authenticated), ("authenticated BYEs", total.byes_authenticated), ("sends refused before keys", total.sends_refused), ("authentic inbound deliveries", total.delivered_authentic), ("cleartext inbound dropped", total.clear_inbound_dropped)] {
+            if n == 0 {
+                vh::machinery_failure(&format!("vacuous concurrent part: zero {what}"));
+            }
+        }
+        if results.iter().all(|r| r.tally.outcomes.len() < 2) {
+            vh::machinery_failure("vacuous concurrent part: no scenario had two distinct outcomes (nothing raced)");
+        }
+    }
+    rep.set("concurrent_schedules", total.schedules);
+    rep.set("concurrent_scheduling_decisions", total.decisions);
+    rep.set("concurrent_scenarios", json!(per));
+    rep.set("concurrent_tally", json!({
+        "datagrams_authenticated": total.datagrams_authenticated,
+        "close_time_byes_authenticated": total.byes_authenticated,
+        "sends_refused_before_keys": total.sends_refused,
+        "authentic_inbound_deliveries": total.delivered_authentic,
+        "cleartext_inbound_dropped": total.clear_inbound_dropped,
+        "max_scheduling_points_in_one_execution": total.max_points,
+        "max_preemptions_in_one_execution": total.max_preemptions,
+    }));
+    nviol
+}
+
 fn main() {
     let cli = vh::cli();
     vh::install_quiet_panic_hook();
     if let Some(p) = cli.replay.clone() {
+        if let Ok(v) = serde_json::from_str::<Value>(&std::fs::read_to_string(&p).unwrap_or_default()) {
+            if v["replay"]["concurrent"].is_string() {
+                c_replay(&v["replay"]);
+            }
+        }
         replay(&cli, &p);
     }
     if cli.rest.iter().any(|a| a == "--pc-level-only") {
@@ -1284,6 +1763,8 @@ fn main() {
         total = total.merge(acc);
     }
 
+    let conc_viol = concurrent_level(&mut rep, cli.tier, &profiles);
+    let _ = conc_viol;
     let pc_confirmed = pc_level(&mut rep, cli.tier);
     let _ = pc_confirmed;
 
@@ -1311,7 +1792,8 @@ fn main() {
         }
     }
 
-    rep.set("states", total.states);
+    let conc_sched = rep.get("concurrent_schedules");
+    rep.set("states", total.states + conc_sched);
     rep.set("transitions", total.transitions);
     rep.set("traces_validated_against_impl", total.leaves);
     rep.set("evaluations", total.leaves);
@@ -1360,7 +1842,7 @@ fn main() {
             "violations": r.findings.iter().map(|(i, f)| json!({"step": i, "signature": f.signature})).collect::<Vec<_>>()}));
     }
     rep.assume("WebRTC (DTLS-SRTP) and SDES modes differ only in how peer_connection.rs derives the SrtpSession keys; at the transport both are RtpTransport::new(conn, srtp_required=true) + start_srtp(session). Key installation is modelled as start_srtp with distinct tx/rx keys, a fresh key generation per install; the PeerConnection-level derivation is exercised by C10.");
-    rep.assume("Every transport call completes without suspending on the in-memory socket (checked: a Pending poll is a machinery failure), so interleavings of tasks at await points coincide with operation sequences; preemptive thread races inside one call are not enumerated.");
+    rep.assume("Every transport call completes without suspending on the in-memory socket (checked: a Pending poll is a machinery failure), so interleavings of tasks at await points coincide with operation sequences. Preemptive thread races inside the calls are enumerated separately (third part) at the granularity of the transport's lock operations, for the listed 2-3 thread scenarios; atomics, the observer RwLock and the listener channels are not scheduling points.");
     rep.assume("close = what PeerConnection::close does to its RTP transport: clear_listeners() then send_rtcp_sync(BYE); the transport object stays alive (senders hold Arcs) and later operations still run against it.");
     rep.assume("NACK/RTX retransmissions and RTCP reports leave through the same send_rtp / send_rtcp / send_rtcp_sync entry points that are enumerated here; the sender/receiver loops above them are not instantiated.");
     rep.assume("Profiles: AES_CM_128_HMAC_SHA1_80 and AEAD_AES_128_GCM (quick), plus AES_CM_128_HMAC_SHA1_32 (thorough); one packet shape per operation (20-byte payload, no extensions; RR / BYE-with-reason / SR+SDES compound RTCP). Packet-shape variation is C04/C05's dimension.");
